@@ -66,7 +66,7 @@ def run(ctx):
                'stored predictions (model_fluxes) are themselves checked against truth by C04')
     ctx.require_events('plot:call', 'curve-point:checked', 'curve-point:truth-checked')
     ctx.require_regimes('mode:interp', 'mode:largest', 'mode:largest+smallest', 'mode:all', 'input:object', 'input:file', 'multi-aperture', 'single-aperture',
-                        'cube:asc', 'cube:desc', 'selected>=2', 'beyond-table', 'filters:unsorted', 'two-sources-share-a-model', 'filters-share-an-aperture', 'filters>=12-distinct-apertures')
+                        'cube:asc', 'cube:desc', 'selected>=2', 'beyond-table', 'filters:unsorted', 'two-sources-share-a-model', 'filters-share-an-aperture', 'filters>=12-distinct-apertures', 'cube:unit-not-mJy', 'filters:other-unit')
     n_pk = 5 if ctx.quick else 100
     for ip in range(n_pk):
         n_m = int(rng.integers(3, 8))
@@ -91,7 +91,10 @@ def run(ctx):
         os.mkdir(md)
         desc = bool(ip % 2)
         aperture_dependent = multi
-        pkg.build_v2(md, truth, aperture_dependent=aperture_dependent, logd_step=0.1, descending_wav=desc)
+        cube_unit = ['mJy', 'Jy', 'uJy'][ip % 3]          # the unit the cube is stored in (BUNIT)
+        if cube_unit != 'mJy':
+            ctx.regime('cube:unit-not-mJy')
+        pkg.build_v2(md, truth, aperture_dependent=aperture_dependent, logd_step=0.1, descending_wav=desc, unit=cube_unit)
         ctx.regime('cube:desc' if desc else 'cube:asc')
         ctx.regime('multi-aperture' if multi else 'single-aperture')
         nb = int(rng.integers(3, 5)) if not many else int(rng.integers(12, 15))
@@ -127,7 +130,10 @@ def run(ctx):
             dr = np.array([1.0, 2.0])
             theta = np.sort(rng.uniform(1, 10, nb))
             rng.shuffle(theta)
-        filt = [w * u.micron for w in wav]
+        funit_ = [u.micron, u.nm, u.AA, u.mm][ip % 4]     # the wavelength "filters" may be given in any length unit
+        if funit_ != u.micron:
+            ctx.regime('filters:other-unit')
+        filt = [(w * u.micron).to(funit_) for w in wav]
         conv = truth.flux[:, :, bi]
         try:
             fitter = gen.make_fitter(filt, theta, md, law, (0.5, 12.0), dr, use_memmap=False)
@@ -167,6 +173,14 @@ def run(ctx):
             ctx.violation('setup:fit-raised', 'fit() raised: %r' % (exc,), dict(multi=multi))
             ctx.rmdir(d)
             continue
+        try:
+            fin_ = FitInfoFile(out, 'r')
+            file_recs = {str(r_.source.name): r_ for r_ in fin_}
+            fin_.close()
+        except Exception as exc:
+            ctx.violation('setup:fit-file-unreadable', 'the fit file cannot be read back: %r' % (exc,), dict(multi=multi))
+            ctx.rmdir(d)
+            continue
         for mode in MODES:
             for form in ('object', 'file'):
                 nsel = int(rng.integers(1, min(5, n_m) + 1))
@@ -188,6 +202,8 @@ def run(ctx):
                 ctx.case(('plot', ip, mode, form, nsel, ctx.shard), nontrivial=nsel >= 2 or multi, sample=wit if ip == 0 and mode == 'all' else None)
                 for sname, rec in (('star', info_obj), ('star2', info_obj2)):
                   wit = dict(wit, source=sname)
+                  if form == 'file':          # "the predicted flux stored with the fit": for file input that is the record in the file
+                      rec = file_recs.get(sname, rec)
                   if sname not in figs or 'lines' not in figs[sname]:
                       ctx.violation('plot:no-lines', 'no line collection returned for the source', wit)
                       continue
